@@ -118,6 +118,17 @@ Proof.
   - intros (t & -> & L). destruct (Z.leb_spec mtime t); [reflexivity | lia].
 Qed.
 
+(* ... stated with the oracle the harness evaluates *)
+Theorem not_modified_oracle rt files path ims rng fp f size mtime :
+  sanitize (length (r_prefix rt)) (has_fb rt) (r_dir rt) path = Some fp ->
+  opened_file rt files fp = Some (f, (size, mtime)) ->
+  (serve rt files false path ims rng = R304 f <-> not_modified mtime ims = true).
+Proof.
+  intros S O. rewrite (not_modified_iff _ _ _ _ rng _ _ _ _ S O). unfold not_modified. split.
+  - intros (t & -> & L). apply Z.leb_le. exact L.
+  - destruct ims as [t|]; [|discriminate]. intro L. exists t. split; [reflexivity | apply Z.leb_le; exact L].
+Qed.
+
 (* a range unit other than "bytes" is ignored *)
 Theorem other_unit_ignored rt files opt path ims :
   serve rt files opt path ims ROther = serve rt files opt path ims RAbsent.
